@@ -280,7 +280,7 @@ P = {
            {"module": "MC_ConstPool", "cfg": "MC_ConstPool.cfg", "timeout": {"quick": 600, "thorough": 3000}}],
     "trace": {"module": "Trace_ClassWrite", "cfg": "Trace_ClassWrite.cfg"},
     "trace_s2i": 10 ** 9,        # every S2I result is also judged by the trace specification (the layout law lives there)
-    "i2s_n": {"quick": 330, "thorough": 4000},
+    "i2s_n": {"quick": 370, "thorough": 4400},
     "classify_vec": c02_class,
     "classify_i2s": c02_i2s_class,
     "required_classes": REQUIRED,
